@@ -1466,10 +1466,10 @@ func (e *executor) executeRowsShard(_ context.Context, index string, fieldName s
 	}
 
 	limit := int(^uint(0) >> 1)
-	if lim, hasLimit, err := c.UintArg("limit"); err != nil {
+	lim, hasLimit, err := c.UintArg("limit")
+	if err != nil {
 		return nil, errors.Wrap(err, "getting limit")
 	} else if hasLimit {
-		filters = append(filters, filterWithLimit(lim))
 		limit = int(lim)
 	}
 
@@ -1479,7 +1479,13 @@ func (e *executor) executeRowsShard(_ context.Context, index string, fieldName s
 			continue
 		}
 
-		viewRows := frag.rows(start, filters...)
+		// The limit filter counts down as it goes, so each view gets its
+		// own: the smallest rows of the range may all be in the last view.
+		viewFilters := filters[:len(filters):len(filters)]
+		if hasLimit {
+			viewFilters = append(viewFilters, filterWithLimit(lim))
+		}
+		viewRows := frag.rows(start, viewFilters...)
 		rowIDs = rowIDs.merge(viewRows, limit)
 	}
 
